@@ -92,9 +92,20 @@ func genBasketCreate(w *World) sdk.Msg {
 	curator := w.anyAcct("curator")
 	ct := w.creditTypeAbbrev("ct")
 	var classes []string
+	wrongType := w.offState("wrongtype")
 	for _, c := range w.S.Classes {
-		if (c.CreditTypeAbbrev == ct || w.offState("wrongtype")) && w.chance("?incl"+c.Id, 70) {
+		if (c.CreditTypeAbbrev == ct || wrongType) && w.chance("?incl"+c.Id, 70) {
 			classes = append(classes, c.Id)
+		}
+	}
+	if len(classes) == 0 && !wrongType { // prefer a credit type that has classes
+		for _, c := range w.S.Classes {
+			if len(classes) == 0 || c.CreditTypeAbbrev == ct {
+				if len(classes) == 0 {
+					ct = c.CreditTypeAbbrev
+				}
+				classes = append(classes, c.Id)
+			}
 		}
 	}
 	if len(classes) == 0 {
@@ -140,8 +151,12 @@ func genPut(w *World) sdk.Msg {
 			}
 		}
 		var cands []balRef
+		dateOK := w.chance("?dateok", 75)
 		for _, b := range w.balances(true) {
 			if c := w.S.ClassOfBatch(b.Batch); c != nil && allowed[c.Id] {
+				if dateOK && !w.roughlyAdmissible(bsk, b.Batch.StartDate.AsTime()) {
+					continue
+				}
 				cands = append(cands, b)
 			}
 		}
@@ -167,6 +182,25 @@ func genPut(w *World) sdk.Msg {
 		credits = append(credits, &baskettypes.BasketCredit{BatchDenom: d, Amount: w.Amount("amt", av)})
 	}
 	return &baskettypes.MsgPut{Owner: w.AddrStr("ostr", owner), BasketDenom: denom, Credits: credits}
+}
+
+// roughlyAdmissible is a generator heuristic (not an oracle): does the batch start date
+// pass the basket's date criterion at the current block time?
+func (w *World) roughlyAdmissible(b *basketapi.Basket, start time.Time) bool {
+	dc := b.DateCriteria
+	if dc == nil {
+		return true
+	}
+	bt := w.C.Time
+	switch {
+	case dc.MinStartDate != nil:
+		return !start.Before(dc.MinStartDate.AsTime())
+	case dc.StartDateWindow != nil:
+		return !start.Before(bt.Add(-dc.StartDateWindow.AsDuration()))
+	case dc.YearsInThePast != 0:
+		return !start.Before(time.Date(bt.Year()-int(dc.YearsInThePast), 1, 1, 0, 0, 0, 0, time.UTC))
+	}
+	return true
 }
 
 func genTake(w *World) sdk.Msg {
@@ -231,15 +265,15 @@ func genTake(w *World) sdk.Msg {
 	}
 	m := &baskettypes.MsgTake{Owner: w.AddrStr("ostr", owner), BasketDenom: denom, Amount: amt}
 	retire := w.chance("?retire", 50)
-	if bsk != nil && !bsk.DisableAutoRetire && !w.chance("?tryNoRetire", 20) {
+	if bsk != nil && !bsk.DisableAutoRetire && !w.chance("?tryNoRetire", 8) {
 		retire = true
 	}
 	m.RetireOnTake = retire
 	if retire {
-		switch w.intn("jurfield", 10) {
-		case 0:
+		switch w.intn("jurfield", 30) {
+		case 1, 2, 3:
 			m.RetirementLocation = w.jurisdiction("loc")
-		case 1:
+		case 4:
 		default:
 			m.RetirementJurisdiction = w.jurisdiction("jur")
 		}
